@@ -42,6 +42,11 @@ func gen(c *hmain.Ctx) {
 	add("split", pipedrv.FamSplit, 25)
 	add("retry", pipedrv.FamRetry, 20)
 	add("commit-race", pipedrv.FamCommitRace, 6)
+	// families first built for C01 / C02 / C05: two holding actions, dead-queue routing, both causes of a retry give-up
+	add("two-holders", pipedrv.FamTwoHolders, 20)
+	add("deadqueue", pipedrv.FamDeadQ, 10)
+	add("retry-stop", pipedrv.FamRetryStop, 6)
+	add("deadqueue", pipedrv.FamDeadQStop, 6)
 	// families / directed schedules that cross the scale / history thresholds of /repo/pipeline (what each would expose:
 	// pipedrv/gen.go, pipedrv/directed.go)
 	add("capacity-1", pipedrv.FamCap1, 15)
